@@ -372,3 +372,6 @@ def check(run, prog):
     run.ob("R-17.3", "rules::no-relexing", not offenders,
            "text is re-lexed outside the lexer: " + ", ".join(f"{f.key} {w}" for f, _, w in offenders[:3]),
            offenders[0][1] if offenders else None)
+    # a memo keyed by the text of a token makes one comment's diagnostics depend on another comment's text
+    from .c06_memo import rule_memoised_results
+    rule_memoised_results(run, prog, "R-17.4")
